@@ -154,23 +154,28 @@ def check_lambda(rep, h):
         s = ir.Sym(f)
     if s.unknown:
         raise AnalysisBroken("C05 %s: unmodelled instruction %s in the copy" % (inst, s.unknown[0]["op"]))
-    # C05.e: no store through the source view / buffer
-    stores = s.stores
-    if len(stores) != M:
-        rep.fail("C05.b", inst, file, "the copy performs %d stores per index tuple, expected %d (one per component)" % (len(stores), M))
+    # the copy: stores of values read from the source (scalar by scalar, or the whole element as one block); other stores are the
+    # lambda's own bookkeeping (a running counter captured by reference) and must not touch the buffers
+    comp = [st for st in s.stores if isinstance(st.val, tuple) and st.val[0] in ('ld', 'blk')]
+    other = [st for st in s.stores if st not in comp]
+    if not comp:
+        rep.fail("C05.b", inst, file, "the copy stores nothing that was read from the source")
         return
     dsts, srcs = set(), set()
     why = None
     dst_base = None
-    for i, st in enumerate(sorted(stores, key=lambda x: relayout_const(x.off))):
+    covered = 0
+    for st in sorted(comp, key=lambda x: relayout_const(x.off)):
         c, terms = split(st.off)
         v = st.val
-        if v[0] != 'ld':
-            why = "component %d stored is %s, not a value read from the source" % (i, ir.show(v)[:80])
-            break
-        sc, sterms = split(v[2])
-        if c != i * sz or sc != i * sz or st.size != sz or v[3] != sz:
-            why = "component %d is copied from byte %s to byte %s of the element (expected %d -> %d)" % (i, sc, c, i * sz, i * sz)
+        srcp = v if v[0] == 'ld' else (('ld', v[1][1], v[1][2], st.size) if v[1][0] == 'ptr' else None)
+        if srcp is None:
+            rep.undecided("C05.b %s: a block copy from %s; not decided" % (inst, ir.show(v)[:60]))
+            return
+        sc, sterms = split(srcp[2])
+        nbytes = st.size if isinstance(st.size, int) else None
+        if c != covered or sc != covered or nbytes is None or nbytes % sz or srcp[3] != nbytes:
+            why = "bytes %s.. of the source element are copied to bytes %s.. of the destination element (%s bytes); expected component i -> component i" % (sc, c, nbytes)
             break
         if len(terms) != 1 or len(sterms) != 1 or terms[0][0] != M * sz or sterms[0][0] != M * sz:
             why = "element stride is not sizeof(vector) = %d on both sides" % (M * sz)
@@ -178,8 +183,18 @@ def check_lambda(rep, h):
         dsts.add(terms[0][1])
         srcs.add(sterms[0][1])
         dst_base = st.base
-        if st.base == v[1]:
+        if st.base == srcp[1]:
             why = "source and destination buffers are the same object"
+        covered += nbytes
+    if why is None and covered != M * sz:
+        why = "the copy transfers %d bytes per index tuple, an element has %d" % (covered, M * sz)
+    if why is None and any(st.base == dst_base for st in other):
+        why = "the destination buffer is also written with something that was not read from the source (%s)" % ir.show(other[0].val)[:60]
+    if why is None and other:
+        state = {st.base for st in other}
+        if any(a[0] == 'ld' and (a[1] in state or ('mem', a) in state) for d_ in dsts | srcs for a in ir.atoms(('x', d_))):
+            rep.undecided("C05.b %s: the position of the copy is taken from state the copy itself updates (a running counter); that it equals the layer's index map depends on the order in which nd_map visits the tuples - not decided" % inst)
+            return
     if why is None and (len(dsts) != 1 or len(srcs) != 1):
         # the position may be computed once per component: the computations must be the same map, which structural
         # equality decides only when the optimiser merged them; otherwise each one is judged against the layer's map
